@@ -42,13 +42,13 @@ impl<D: StorageData> StorageData for Rec<D> {
 #[derive(Clone)]
 pub struct Snap { pub data: Vec<u8>, pub wal: Vec<u8>, pub call: usize, pub torn: usize, pub ops_seen: usize, pub committed: Vec<u8> }
 
-struct HookState { path: String, wal_path: String, calls: Vec<String>, snaps: Vec<Snap>, committed: Vec<u8>, torn_seed: u64 }
+pub struct HookState { pub path: String, pub wal_path: String, pub calls: Vec<String>, pub snaps: Vec<Snap>, pub committed: Vec<u8>, pub torn_seed: u64 }
 
-fn wal_name(path: &str) -> String {
+pub fn wal_name(path: &str) -> String {
     match path.rfind('/') { Some(i) => format!("{}/.{}", &path[..i], &path[i + 1..]), None => format!(".{}", path) }
 }
 
-fn read_file(p: &str) -> Vec<u8> { std::fs::read(p).unwrap_or_default() }
+pub fn read_file(p: &str) -> Vec<u8> { std::fs::read(p).unwrap_or_default() }
 
 fn show_call(e: &FsEvent) -> Option<String> {
     match e {
@@ -60,25 +60,9 @@ fn show_call(e: &FsEvent) -> Option<String> {
     }
 }
 
-pub struct Out {
-    pub cases: Vec<String>, pub imp: Vec<String>, pub oracle: Vec<String>,
-    pub stats: BTreeMap<String, u64>, pub samples: Vec<String>, pub nontrivial: u64, pub programs: u64, pub snapshots: u64,
-}
-
-fn bump(o: &mut Out, k: &str) { *o.stats.entry(k.to_string()).or_insert(0) += 1; }
-
-fn show_sdop(o: &SdOp) -> String {
-    match o { SdOp::Write(p, b) => format!("(w {:x} {})", p, hex(b)), SdOp::Resize(n) => format!("(r {:x})", n), SdOp::Flush => "f".into() }
-}
-
-// one storage-level program on a fresh file
-pub fn run_program(rng: &mut Rng, dir: &str, idx: usize, mapped: bool, max_ops: u64, out: &mut Out) {
-    let path = format!("{}/w{}.agdb", dir, idx);
-    let wal_path = wal_name(&path);
-    let _ = std::fs::remove_file(&path);
-    let _ = std::fs::remove_file(&wal_path);
-    OPS.lock().unwrap().clear();
-    let hs = Arc::new(Mutex::new(HookState { path: path.clone(), wal_path: wal_path.clone(), calls: vec![], snaps: vec![], committed: vec![], torn_seed: rng.next() }));
+pub fn install_hook(path: &str, torn_seed: u64) -> Arc<Mutex<HookState>> {
+    let wal_path = wal_name(path);
+    let hs = Arc::new(Mutex::new(HookState { path: path.to_string(), wal_path: wal_path.clone(), calls: vec![], snaps: vec![], committed: vec![], torn_seed }));
     let h2 = hs.clone();
     set_fs_hook(Some(Box::new(move |e: &FsEvent| {
         let Some(call) = show_call(e) else { return; };
@@ -120,6 +104,28 @@ pub fn run_program(rng: &mut Rng, dir: &str, idx: usize, mapped: bool, max_ops: 
         s.calls.push(call);
     })));
 
+    hs
+}
+
+pub struct Out {
+    pub cases: Vec<String>, pub imp: Vec<String>, pub oracle: Vec<String>,
+    pub stats: BTreeMap<String, u64>, pub samples: Vec<String>, pub nontrivial: u64, pub programs: u64, pub snapshots: u64,
+}
+
+fn bump(o: &mut Out, k: &str) { *o.stats.entry(k.to_string()).or_insert(0) += 1; }
+
+fn show_sdop(o: &SdOp) -> String {
+    match o { SdOp::Write(p, b) => format!("(w {:x} {})", p, hex(b)), SdOp::Resize(n) => format!("(r {:x})", n), SdOp::Flush => "f".into() }
+}
+
+// one storage-level program on a fresh file
+pub fn run_program(rng: &mut Rng, dir: &str, idx: usize, mapped: bool, max_ops: u64, out: &mut Out) {
+    let path = format!("{}/w{}.agdb", dir, idx);
+    let wal_path = wal_name(&path);
+    let _ = std::fs::remove_file(&path);
+    let _ = std::fs::remove_file(&wal_path);
+    OPS.lock().unwrap().clear();
+    let hs = install_hook(&path, rng.next());
     let mut program: Vec<String> = vec![];
     let result = std::panic::catch_unwind(std::panic::AssertUnwindSafe(|| -> Result<(), DbError> {
         let mut live: Vec<(u64, u64)> = vec![]; // (index, size)
